@@ -88,6 +88,11 @@ def judge(out, case, spec, files, before, after, res, tags, what, n_ref):
                          "(exit %d)" % (what, f, res.code), **tags)
         all_t = all_t and s == "T"
     si, sp = pa.leftovers()
+    # an info file whose REMOVAL was itself answered with an injected error cannot be cleaned up by
+    # anybody: leaving it behind (with failure reported) is the best possible outcome
+    unremovable = {t[3][0] for t in res.trace if t[2] in ("unlink", "remove") and
+                   str(t[4]).startswith("FAULT") and t[3]}
+    si = [p for p in si if p not in unremovable]
     if si:
         out.fail("stray_info", "%s: stray .trashinfo %s (exit %d)" % (what, si[:2], res.code), **tags)
     if sp:
